@@ -307,4 +307,47 @@ theorem stream_only_genuine (C : Crypto) (s : Suite) (hs : s.WF) (hC : C.Laws s.
   · rw [h3]; simp only [encrypt, hk]; rfl
   · rw [hbody]; simp only [encrypt, hk]; rfl
 
+/-- **CBC suites: only the genuine record is accepted** — under MAC authenticity *and* the
+hypothesis `hCbc` that the received (IV, ciphertext) decrypts to the genuine data ‖ MAC followed by
+some padding only if it is the genuine (IV, ciphertext). The second hypothesis is a property of
+the block cipher (no second pre-image of a chosen padded plaintext without the key), not of the
+record layer. -/
+theorem cbc_only_genuine (C : Crypto) (s : Suite) (hs : s.WF) (hC : C.Laws s.tagLen s.macLen) (hk : s.kind = .cbc)
+    (r w : Half) (hsy : Sync s r w) (typ : Nat) (ht0 : 0 < typ) (ht : typ < 256) (hta : typ ≠ tAlert) (d : Bytes)
+    (hd : d.length ≤ maxPlaintext) (rec' : Bytes) (hf' : Framed rec')
+    (d' : Bytes) (typ' : Nat) (r'' : Half) (hok : decrypt C s r rec' = .ok (d', typ', r''))
+    (hMac : ∀ m t, C.mac r.macKey m = t →
+      m = seq8 r.seq ++ rec'.take 3 ++
+        u16 ((mtePlain C s r rec').1.length - s.macLen - (mtePlain C s r rec').2.1) ++
+        (mtePlain C s r rec').1.take ((mtePlain C s r rec').1.length - s.macLen - (mtePlain C s r rec').2.1) →
+      t = ((mtePlain C s r rec').1.drop ((mtePlain C s r rec').1.length - s.macLen - (mtePlain C s r rec').2.1)).take s.macLen →
+      m = seq8 w.seq ++ hdr typ (wireVers s.vers) d.length ++ d)
+    (hCbc : ∀ pad, (mtePlain C s r rec').1 = d ++ C.mac w.macKey (seq8 w.seq ++ hdr typ (wireVers s.vers) d.length ++ d) ++ pad →
+      rec'.drop 5 = (encrypt C s w typ d).1.drop 5) :
+    rec' = (encrypt C s w typ d).1 := by
+  obtain ⟨hdd, _, h3⟩ := mte_accept_genuine C s hs (Or.inl hk) r w hsy typ ht d rec' hf' d' typ' r'' hok hMac
+  obtain ⟨_, hcm⟩ := decrypt_mte_ok C s hs (Or.inl hk) r rec' d' typ' r'' hok
+  obtain ⟨hle, _, hd', hmac⟩ := checkMac_ok_inv C s r rec' _ _ _ d' hcm
+  have hm := hMac _ _ hmac rfl rfl
+  have hmk : r.macKey = w.macKey := hsy.2.1
+  generalize hplv : (mtePlain C s r rec').1 = pl at hle hd' hmac hm hCbc
+  generalize hpadv : (mtePlain C s r rec').2.1 = padLen at hd' hmac hm
+  have hmacg : C.mac w.macKey (seq8 w.seq ++ hdr typ (wireVers s.vers) d.length ++ d) =
+      (pl.drop (pl.length - s.macLen - padLen)).take s.macLen := by
+    rw [← hmk, ← hm]; exact hmac
+  have hsplit : pl = d ++ C.mac w.macKey (seq8 w.seq ++ hdr typ (wireVers s.vers) d.length ++ d) ++
+      (pl.drop (pl.length - s.macLen - padLen)).drop s.macLen := by
+    rw [hmacg, List.append_assoc, List.take_append_drop, ← hdd, hd', List.take_append_drop]
+  have hbody := hCbc _ hsplit
+  have hf := encrypt_framed C s hs hC r w hsy typ ht0 ht hta d hd
+  apply framed_eq _ _ hf hf' ?_ hbody
+  rw [h3]
+  obtain ⟨r', hg, _⟩ := genuine_encrypt C s hs hC r w hsy typ ht0 ht hta d hd
+  obtain ⟨t, body, hrec, _⟩ := hg.framed
+  -- the genuine record's outer type is `typ` (TLS ≤ 1.2) and its version field the wire version
+  have hv : s.vers ≠ v13 := not_v13_of_kind s hs (by rw [hk]; simp)
+  by_cases hv11 : s.vers ≥ v11
+  · simp only [encrypt, hk, hv11, if_true]; rfl
+  · simp only [encrypt, hk, hv11, if_false]; rfl
+
 end Record
